@@ -10,7 +10,10 @@
 (* tolerance is the next entry of the user's list, or -- with a quantile --  *)
 (* a quantile of the accepted distances, i.e. some value between their      *)
 (* minimum and maximum.  A run may be continued with a first tolerance not  *)
-(* above the last one used.                                                 *)
+(* above the last one used.  The object may also be used again for a FRESH    *)
+(* run (Restart) with another population size: nothing of the earlier run    *)
+(* survives in what it exposes.  N bounds the population; n is the           *)
+(* population of the run in progress.                                        *)
 (***************************************************************************)
 EXTENDS Integers, Sequences, FiniteSets, FiniteSetsExt, TLC
 
@@ -23,22 +26,27 @@ VARIABLES gen,                 \* number of the current generation (1-based), 0 
           post,                \* the posterior sample: the last completed generation
           tols,                \* tolerances used so far
           trials,              \* trials made in this generation (bounds the model)
-          runs                 \* completed get / continue calls
-avars == <<gen, tol, parts, post, tols, trials, runs>>
+          runs,                \* completed get / continue calls
+          n                    \* population size asked for by the current run (1..N)
+avars == <<gen, tol, parts, post, tols, trials, runs, n>>
 
 Ranks == 0..MaxRank
-Init == gen = 0 /\ tol = 0 /\ parts = <<>> /\ post = <<>> /\ tols = <<>> /\ trials = 0 /\ runs = 0
+Init == gen = 0 /\ tol = 0 /\ parts = <<>> /\ post = <<>> /\ tols = <<>> /\ trials = 0 /\ runs = 0 /\ n = N
 
-Start(t0) == /\ gen = 0 /\ runs = 0
-             /\ gen' = 1 /\ tol' = t0 /\ tols' = <<t0>> /\ parts' = <<>> /\ trials' = 0
-             /\ UNCHANGED <<post, runs>>
+Start(t0, m) == /\ gen = 0 /\ runs = 0 /\ m \in 1..N
+                /\ gen' = 1 /\ tol' = t0 /\ tols' = <<t0>> /\ parts' = <<>> /\ trials' = 0 /\ n' = m
+                /\ UNCHANGED <<post, runs>>
+(* get_posterior_sample on an object that has been used before: a fresh run, with its own population size *)
+Restart(t0, m) == /\ gen = 0 /\ runs > 0 /\ m \in 1..N
+                  /\ gen' = 1 /\ tol' = t0 /\ tols' = <<t0>> /\ parts' = <<>> /\ trials' = 0 /\ n' = m
+                  /\ post' = <<>> /\ runs' = 0
 
 Accepts(c, p) == p /\ c < tol
 Trial(c, p) ==
-    /\ gen > 0 /\ Len(parts) < N /\ trials < N + 2
+    /\ gen > 0 /\ Len(parts) < n /\ trials < n + 2
     /\ trials' = trials + 1
     /\ parts' = IF Accepts(c, p) THEN Append(parts, [cost |-> c, prior |-> p, tol |-> tol, gen |-> gen]) ELSE parts
-    /\ UNCHANGED <<gen, tol, post, tols, runs>>
+    /\ UNCHANGED <<gen, tol, post, tols, runs, n>>
 
 Dists(ps) == {ps[i].cost : i \in 1..Len(ps)}
 NextTols(ps) ==
@@ -46,8 +54,8 @@ NextTols(ps) ==
       [] Mode = "list"     -> {t \in Ranks : t <= tol}             \* a decreasing list supplied by the user
       [] OTHER             -> {}
 EndGeneration ==
-    /\ gen > 0 /\ Len(parts) = N
-    /\ post' = parts
+    /\ gen > 0 /\ Len(parts) = n
+    /\ post' = parts /\ UNCHANGED n
     /\ \/ /\ gen < MaxGen /\ Mode # "rejection"
           /\ \E t \in NextTols(parts) : tol' = t /\ tols' = Append(tols, t)
           /\ gen' = gen + 1 /\ parts' = <<>> /\ trials' = 0 /\ UNCHANGED runs
@@ -58,14 +66,17 @@ EndGeneration ==
 Continue(t0) ==
     /\ gen = 0 /\ runs > 0 /\ runs < 2 /\ t0 <= tol
     /\ gen' = 1 /\ tol' = t0 /\ tols' = Append(tols, t0) /\ parts' = <<>> /\ trials' = 0
-    /\ UNCHANGED <<post, runs>>
+    /\ UNCHANGED <<post, runs, n>>
 
-Next == (\E t \in Ranks : Start(t) \/ Continue(t)) \/ (\E c \in Ranks : \E p \in BOOLEAN : Trial(c, p)) \/ EndGeneration
+Next == (\E t \in Ranks : Continue(t) \/ \E m \in 1..N : Start(t, m) \/ Restart(t, m))
+        \/ (\E c \in Ranks : \E p \in BOOLEAN : Trial(c, p)) \/ EndGeneration
 Spec == Init /\ [][Next]_avars
 
 (* C17 *)
 ParticleOK(x) == x.prior /\ x.cost < x.tol
 AcceptedUnderTol == (\A i \in 1..Len(parts) : ParticleOK(parts[i])) /\ (\A i \in 1..Len(post) : ParticleOK(post[i]))
 TolerancesNeverIncrease == (Mode = "quantile") => \A i \in 1..(Len(tols) - 1) : tols[i + 1] <= tols[i]
-PosteriorComplete == (runs > 0 /\ gen = 0) => Len(post) = N
+PosteriorComplete == (runs > 0 /\ gen = 0) => Len(post) = n
+(* what is exposed belongs to the run that produced it: every particle of the posterior carries a tolerance of THIS run *)
+NothingSurvivesARestart == \A i \in 1..Len(post) : \E j \in 1..Len(tols) : post[i].tol = tols[j]
 =============================================================================
